@@ -3,11 +3,13 @@
    replaces frame data only by strictly smaller data; fcTL serialisation/parsing are inverse on all
    fields; the sequence numbers written are consecutive; when the policy does not keep all three
    animation chunk types they are all ignored (plain PNG of the default image; after fix 0e2fef8).
-   Frame pixels (inflate + reconstruction + Spec.Sem of each frame) are decided per run by the
-   oracle; colour type / bit depth / interlacing are unchanged because preprocess_chunks disables
+   FRAME PIXELS (C10_frame_pixels): a frame's data is replaced only by the compression of a stream that the specification's
+   decoder - frame dimensions, the image's colour type, depth and interlacing - maps to the same picture as the frame's old
+   data (alpha-equivalent under alpha optimisation), for all ten filter strategies, every compressor, every subset of
+   frames skipped by the clock. Colour type / bit depth / interlacing are unchanged because preprocess_chunks disables
    all reductions when acTL is present (C14_decision_table) and C08 applies. *)
-From OxiVerif Require Import Base.Common Model.Types Model.Options Model.Headers Model.PngData Model.Optimize
-  Proofs.ChunkProofs Proofs.ApngProofs.
+From OxiVerif Require Import Base.Common Spec.Adam7 Model.Types Model.Options Model.Headers Model.PngData Model.Optimize
+  Proofs.ChunkProofs Proofs.ApngProofs Proofs.LiftColor Proofs.FramePixels.
 
 Theorem C10_frames_preserved : forall e o p f fs', recompress_frames e o p f = Ok fs' ->
   Forall2 (fun a b => same_frame_fields a b /\ (f_data b = f_data a \/ lenZ (f_data b) < lenZ (f_data a))) (frames p) fs'.
@@ -30,3 +32,14 @@ Theorem C10_stripped_is_plain_png : forall o st c,
   from_slice_step o st c = Ok st.
 Proof. exact animation_stripped_together. Qed.
 Print Assumptions C10_stripped_is_plain_png.
+
+(* every frame still shows the same picture (under the zlib oracle assumptions; sizes within usize) *)
+Theorem C10_frame_pixels : forall e (inflate : list Z -> option (list Z)) o p f fs',
+  (forall x n y, z_inflate e x n = Ok y -> inflate x = Some y /\ bytes_ok y) ->
+  (forall d s, inflate (z_deflate e d s) = Some s) ->
+  wf_ctype (ctype (hdr (raw p))) (depth (hdr (raw p))) ->
+  Forall (fun fr => spec_raw_size (f_width fr) (f_height fr) (bpp (hdr (raw p))) (interlaced (hdr (raw p))) true <= usize_max) (frames p) ->
+  recompress_frames e o p f = Ok fs' ->
+  Forall2 (fun a b => frame_same (optimize_alpha o) (frame_picture inflate (hdr (raw p)) a) (frame_picture inflate (hdr (raw p)) b)) (frames p) fs'.
+Proof. exact recompress_frames_top_pixels. Qed.
+Print Assumptions C10_frame_pixels.
